@@ -442,6 +442,26 @@ Definition value_exports (m : list item) : list (ename * pos) :=
 (* the same export, as seen in a document whose positions all have file index 0 *)
 Definition zero_export (x : ename * pos) : ename * pos := (fst x, zero_file (snd x)).
 
+(** ** Runtime reading of a JS module
+
+    ECMAScript: two lexical declarations of the same name in one module are an early
+    SyntaxError; the module is never evaluated and exports nothing.  (Observed with node 20 on
+    the loader's real output: "Identifier 'FooQuery' has already been declared".) *)
+Fixpoint decl_names (m : list item) : list str :=
+  match m with
+  | [] => []
+  | IDecl _ n _ :: r => n :: decl_names r
+  | IDefault _ :: r => decl_names r
+  end.
+Fixpoint nodupb (l : list str) : bool :=
+  match l with
+  | [] => true
+  | x :: r => negb (existsb (str_eqb x) r) && nodupb r
+  end.
+Definition loadable (m : list item) : bool := nodupb (decl_names m).
+Definition runtime_exports (m : list item) : list (ename * pos) :=
+  if loadable m then value_exports m else [].
+
 (** what a JS binding carries: ["const "; write_for(name); " = "; body] *)
 Fixpoint js_bindings (ops : list wop) : list (str * pos * str) :=
   match ops with
@@ -502,3 +522,27 @@ Definition is_default_export (o : base_opts) (d : doc) (x : def) : bool :=
   | OpDef _ _ _ _ => default_export_for_operation o && single_op d
   | FragDef _ _ => false
   end.
+
+(** no two definitions of the document get the same variable name *)
+Definition distinct_vars (o : base_opts) (d : doc) : bool := nodupb (map (var_name o) (defs d)).
+
+(** GraphQL's own uniqueness rules on names (spec 5.2.1.1, 5.2.2.1, 5.5.1.1): operation names
+    unique, an anonymous operation only alone, fragment names unique.  `nitrogql check` enforces
+    them; the runtime reading of the property is asked only of such documents. *)
+Fixpoint op_names (l : list def) : list str :=
+  match l with
+  | [] => []
+  | OpDef _ (Some (n, _)) _ _ :: r => n :: op_names r
+  | _ :: r => op_names r
+  end.
+Fixpoint frag_names (l : list def) : list str :=
+  match l with
+  | [] => []
+  | FragDef n _ :: r => n :: frag_names r
+  | _ :: r => frag_names r
+  end.
+Definition has_anonymous (l : list def) : bool :=
+  existsb (fun x => match x with OpDef _ None _ _ => true | _ => false end) l.
+Definition doc_valid_names (d : doc) : bool :=
+  nodupb (op_names (defs d)) && nodupb (frag_names (defs d))
+  && (if has_anonymous (defs d) then single_op d else true).
